@@ -13,6 +13,7 @@ import (
 	"fmt"
 	"math/rand"
 	"net"
+	"sort"
 	"sync"
 	"time"
 
@@ -32,7 +33,128 @@ func stressStream(o *Out, rng *rand.Rand, n int) {
 	rounds := n/50 + 2
 	for r := 0; r < rounds; r++ {
 		stressRound(o, rng, 48, 6)
+		stressAnnRound(o, rng, 48, 4)
 	}
+}
+
+// stressAnnRound: concurrent ANNOUNCES with a client-supplied address (allow_ip_spoofing) through the real UDP frontend.
+// Every client works on a swarm of its own, so the state the datagrams imply does not depend on the order in which
+// concurrent datagrams are processed - but it does depend on every request keeping its own bytes until its
+// post-response processing (the membership update runs after the response, when the receive buffer is back in the pool).
+// After Stop (which waits for the post-response hooks) the store must hold exactly what the datagrams imply: EDump.
+func stressAnnRound(o *Out, rng *rand.Rand, clients, perClient int) {
+	key := fmt.Sprintf("stress-key-%d", rng.Intn(1000))
+	now := int64(1_700_000_000_000_000_000) + int64(rng.Intn(1000))*int64(time.Second)
+	timecache.VerifPin(now)
+	huge := 1000 * time.Hour
+	store, err := memory.New(memory.Config{ShardCount: 4, GarbageCollectionInterval: huge, PrometheusReportingInterval: huge, PeerLifetime: huge})
+	if err != nil {
+		panic(err)
+	}
+	logic := middleware.NewLogic(middleware.ResponseConfig{AnnounceInterval: time.Minute, MinAnnounceInterval: time.Second}, store, nil, nil)
+	cfg := eCfg{Key: key, SkewNs: int64(10 * time.Second), MaxNW: 100, DefNW: 50, MaxScrape: 3, Interval: int64(time.Minute), MinIntv: int64(time.Second)}
+	fe, err := udp.NewFrontend(logic, udp.Config{Addr: "127.0.0.1:0", PrivateKey: key, MaxClockSkew: time.Duration(cfg.SkewNs),
+		ParseOptions: udp.ParseOptions{AllowIPSpoofing: true, MaxNumWant: cfg.MaxNW, DefaultNumWant: cfg.DefNW, MaxScrapeInfoHashes: cfg.MaxScrape}})
+	if err != nil {
+		panic(err)
+	}
+	addr := udp.VerifLocalAddr(fe)
+	src := net.IP{127, 0, 0, 1}
+	cid := udp.NewConnectionID(src, time.Unix(0, now), key)
+	ts0 := make([]byte, 4)
+	binary.BigEndian.PutUint32(ts0, uint32(time.Unix(0, now).Unix()))
+	terms := make([][]string, clients)
+	ihOf := make([][]byte, clients)
+	lostC := make([]bool, clients)
+	seeds := make([]int64, clients)
+	for i := range seeds {
+		seeds[i] = rng.Int63()
+		ihOf[i] = make([]byte, 20)
+		rng.Read(ihOf[i])
+		ihOf[i][0] = byte(i) // distinct per client
+	}
+	var wg sync.WaitGroup
+	for c := 0; c < clients; c++ {
+		c := c
+		wg.Add(1)
+		go func() {
+			defer wg.Done()
+			lr := rand.New(rand.NewSource(seeds[c]))
+			conn, err := net.DialUDP("udp4", &net.UDPAddr{IP: src}, addr)
+			if err != nil {
+				panic(err)
+			}
+			defer conn.Close()
+			ids := make([][]byte, 2)
+			for i := range ids {
+				ids[i] = make([]byte, 20)
+				lr.Read(ids[i])
+			}
+			for k := 0; k < perClient; k++ {
+				ipf := []byte{byte(1 + lr.Intn(200)), byte(c), byte(k), byte(1 + lr.Intn(250))}
+				if lr.Intn(6) == 0 {
+					ipf = []byte{0, 0, 0, 0} // "use the source address"
+				}
+				pkt := e2eAnnouncePacket(lr, false, ihOf[c], ids[lr.Intn(len(ids))], uint64(lr.Intn(2)), uint32(lr.Intn(4)), ipf, 50, uint16(7000+lr.Intn(3)), nil)
+				copy(pkt[0:8], cid)
+				_, _ = conn.Write(pkt)
+				_ = conn.SetReadDeadline(time.Now().Add(6 * time.Second))
+				buf := make([]byte, 4096)
+				m, err := conn.Read(buf)
+				if err != nil {
+					// a lost datagram: was it processed or not?  this client's swarm is inconclusive
+					lostC[c] = true
+					return
+				}
+				macs := fmt.Sprintf("[(%s, %s, %s); (%s, %s, %s)]", cB([]byte(key)), cB(append(append([]byte{}, ts0...), src...)), cB(e2eMac([]byte(key), append(append([]byte{}, ts0...), src...))),
+					cB([]byte(key)), cB(append(append([]byte{}, pkt[0:4]...), src...)), cB(e2eMac([]byte(key), append(append([]byte{}, pkt[0:4]...), src...))))
+				terms[c] = append(terms[c], fmt.Sprintf("EUdp %s %s %s false %s LSkip", cB(src), cB(pkt), macs, cList([]string{cB(buf[:m])})))
+			}
+		}()
+	}
+	wg.Wait()
+	<-fe.Stop() // waits for the post-response hooks as well
+	skip := map[string]bool{}
+	nlost := 0
+	for c := range lostC {
+		if lostC[c] {
+			skip[string(ihOf[c])] = true
+			nlost++
+		}
+	}
+	half := memory.VerifShardCount(store) / 2
+	var items []string
+	ds := memory.VerifDump(store)
+	sort.Slice(ds, func(a, b int) bool {
+		if ds[a].InfoHash != ds[b].InfoHash {
+			return string(ds[a].InfoHash[:]) < string(ds[b].InfoHash[:])
+		}
+		if ds[a].Seeder != ds[b].Seeder {
+			return ds[a].Seeder
+		}
+		return ds[a].Key < ds[b].Key
+	})
+	for _, d := range ds {
+		if skip[string(d.InfoHash[:])] {
+			continue
+		}
+		items = append(items, fmt.Sprintf("(%s, %s, %s, %s, %s)", cB(d.InfoHash[:]), cBool(d.Shard >= half), cBool(d.Seeder), cB([]byte(d.Key)), cZ(d.MTime)))
+	}
+	<-store.Stop()
+	all := []string{fmt.Sprintf("EClock %s", cZ(now))}
+	nreq := 0
+	for c := range terms {
+		if !lostC[c] {
+			all = append(all, terms[c]...)
+			nreq += len(terms[c])
+		}
+	}
+	all = append(all, "EDump "+cList(items))
+	cc := fmt.Sprintf("{| e_key := %s; e_skew := %s; e_uspoof := true; e_hspoof := false; e_hdrname := []; e_maxnw := %d; e_defnw := %d; e_maxscrape := %d; e_interval := %s; e_min_interval := %s |}",
+		cB([]byte(cfg.Key)), cZ(cfg.SkewNs), cfg.MaxNW, cfg.DefNW, cfg.MaxScrape, cZ(cfg.Interval), cZ(cfg.MinIntv))
+	o.add(Case{Coq: fmt.Sprintf("(%s, [\n  %s])", cc, joinLines(all)), Kind: "udp-stress-announce",
+		In:  map[string]interface{}{"clients": clients, "per_client": perClient, "requests": nreq, "clients_skipped_lost_datagram": nlost, "spoofing": true},
+		Obs: map[string]interface{}{"requests": nreq, "entries": len(items)}})
 }
 
 func stressRound(o *Out, rng *rand.Rand, clients, perClient int) {
@@ -239,6 +361,7 @@ func init() {
 func raceStream(o *Out, rng *rand.Rand, n int) {
 	for r := 0; r < n/40+1; r++ {
 		stressRound(o, rng, 24, 5)
+		stressAnnRound(o, rng, 24, 4)
 	}
 	raceStores(rng, n)
 }
